@@ -452,6 +452,25 @@ func init() {
 				rep.sample(map[string]interface{}{"config": cfg.String(), "ops": trunc(opKinds(ops), 400)})
 			}
 		}
+		// what a commit serialises is what recovery decodes: the region codec incl. the counts around 255, and a history
+		// whose committed free list holds a region of exactly 255 pages followed by another one (seeded change C01o = C10g)
+		codecCases(rep, m, r, 300)
+		for v := 0; v < 2; v++ {
+			cfg := engine.Config{PageSize: 1024, MaxSize: []uint64{0, 1024 * 1024}[v], InitMetaArea: 4}
+			ops := []engine.Op{{Kind: "begin"}, {Kind: "alloc", N: 300}}
+			for k := 0; k < 6; k++ {
+				ops = append(ops, engine.Op{Kind: "setfull", P: 290 + k, Seed: 60 + k})
+			}
+			ops = append(ops, engine.Op{Kind: "setroot", P: 295}, engine.Op{Kind: "commit"}, engine.Op{Kind: "begin"})
+			for k := 0; k < 255; k++ {
+				ops = append(ops, engine.Op{Kind: "free", P: 10}) // always the 10th remaining page: a contiguous run of 255
+			}
+			ops = append(ops, engine.Op{Kind: "free", P: 20}, engine.Op{Kind: "free", P: 2}, engine.Op{Kind: "commit"},
+				engine.Op{Kind: "reopen"}, engine.Op{Kind: "verify"},
+				engine.Op{Kind: "begin"}, engine.Op{Kind: "alloc", N: 270}, engine.Op{Kind: "setfull", P: 1 << 15, Seed: 8}, engine.Op{Kind: "commit"}, engine.Op{Kind: "verify"})
+			rep.count("scenario:free-region-of-255-pages-in-the-committed-free-list", 1)
+			crashHistory(rep, m, cfg, ops, int64(8200+v), f.tier, nil)
+		}
 		// pages with overwrite pages that a transaction merely loads / reads while its commit runs the automatic
 		// checkpoint of the overwrite mapping (seeded change C01m: the checkpoint skips them and drops their entries)
 		for i := 0; i < 6; i++ {
